@@ -7,6 +7,13 @@ TRUST = ("trusted base: go/types + go/ssa (x/tools v0.50.0), goyacc v0.29.0's LA
          "interface calls that leave the module (Entry, plugins) are opaque")
 
 CHECKS = {
+    "C07": dict(
+        cat="other",
+        text=("Decides the structural necessary conditions of 'parsing is total and leaves nothing running': every character loop of the YANG lexer leaves at end of input (the loop predicate is evaluated exactly, as an interval set, at the eof sentinel) and consumes a rune per iteration; the single goroutine the parser starts closes its channel when its state machine ends and the parser's recover handler drains that channel before dropping the lexer; Parse defers the handler; every explicit panic reachable from Parse carries an error value (the handler asserts e.(error)) and is located (name, line, column, or the statement's ErrorContext); every index/slice expression and unchecked type assertion in the static call cone of Parse and of the lexer goroutine (state functions followed as values) is discharged by a guard that must still be present or by a reviewed entry; the success return follows parse(), which sets Root from the node stmt() built."),
+        ref="DESIGN.md §4 C07",
+        technique="loop-exit rule with interval-set evaluation of the loop predicate at eof, producer/consumer (close + drain) rule, panic-value typing over the static cone, cone-wide index/slice obligations with guard facts and a reviewed table",
+        note="Not decided: nil dereferences, recursion depth, and index safety beyond recognised guards/reviewed entries (no general range analysis). " + TRUST,
+    ),
     "C02": dict(
         cat="other",
         text=("Decides the structural facts that make a location path designate the right node in the fork's path engine: the step instruction reads only the local part of a lexed name (a prefix cannot change the node); only the '/' arm of CodePathOper marks a path root-based, it is emitted only by the Root production and Root only begins paths; current() and context-relative evaluation start from a fresh empty path and operand paths are deep copies; each name step and each '..' emits exactly one element, '.' none, and the step list is left-recursive (source order); PredicatesEnd sorts the collected key names before attaching them to the last element, and in [key = operand] the key is the left and the value the right operand's string value; EvalLocPathInternal navigates the path it popped, reads the entry Navigate returned and pushes exactly that value; PREDSTART/PREDEND are balanced and PREDEND resets the per-predicate toggle, whose tests in the step instruction and in EvalLocPath are complementary."),
@@ -111,7 +118,7 @@ def main():
 
 
 NA = {}
-SOURCE_COMMITS = ["e91d74a fix: reject invalid UTF-8 inside literals and QName local parts", "ad0dbf5 fix: CreateProgram no longer panics when the error position underflows", "f5b2578 fix: a submodule may have at most one organization statement", "7be1c78 fix: spell the yin-element keyword correctly", "9e6f860 fix: boolean arguments accept only true and false", "779e276 fix: integer arguments are decimal only", "b95096a fix: identifiers are ASCII as the YANG ABNF requires", "2221591 fix: NewFakeNodeByType no longer writes into the shared cardinality table", "53dc864 fix: div follows IEEE 754 for a zero denominator", "ea66e69 fix: boolean() of NaN is false", "588031e fix: round() rounds ties towards positive infinity", "362e2bb fix: string() of a number never uses exponent notation", "9ac8c0a fix: string-length() and substring() count characters, not bytes", "9cf326e fix: a run stops at the first error an instruction reports", "fb4c9e7 fix: the tested-function table is accessed under the function-table lock"]
+SOURCE_COMMITS = ["e91d74a fix: reject invalid UTF-8 inside literals and QName local parts", "ad0dbf5 fix: CreateProgram no longer panics when the error position underflows", "f5b2578 fix: a submodule may have at most one organization statement", "7be1c78 fix: spell the yin-element keyword correctly", "9e6f860 fix: boolean arguments accept only true and false", "779e276 fix: integer arguments are decimal only", "b95096a fix: identifiers are ASCII as the YANG ABNF requires", "2221591 fix: NewFakeNodeByType no longer writes into the shared cardinality table", "53dc864 fix: div follows IEEE 754 for a zero denominator", "ea66e69 fix: boolean() of NaN is false", "588031e fix: round() rounds ties towards positive infinity", "362e2bb fix: string() of a number never uses exponent notation", "9ac8c0a fix: string-length() and substring() count characters, not bytes", "9cf326e fix: a run stops at the first error an instruction reports", "fb4c9e7 fix: the tested-function table is accessed under the function-table lock", "8440a3d fix: the YANG lexer no longer hangs when the text ends inside an unquoted word", "bd7a52f fix: a failed parse no longer leaks the lexer goroutine"]
 
 if __name__ == "__main__":
     main()
